@@ -11,7 +11,7 @@ const SOUP_IDENTS: [&str; 40] = [
     "permeate", "skip_repeat", "stop_repeat", "attribute", "impl_attribute", "inner_attribute", "map", "ghost", "parent", "child", "quick_return", "default_case", "update", "type_hint",
     "crate", "super",
 ];
-const SOUP_LITS: [&str; 14] = ["0", "1", "42u8", "1.5", "\"~@\"", "\"x\"", "'~'", "'a'", "r#\"@\"#", "b\"q\"", "0x1F", "1e3", "true", "b'@'"];
+const SOUP_LITS: [&str; 17] = ["0", "1", "42u8", "1.5", "\"~@\"", "\"x\"", "'~'", "'a'", "r#\"@\"#", "b\"q\"", "0x1F", "1e3", "true", "b'@'", "c\"z\"", "cr#\"z\"#", "1_0"];
 const SOUP_PUNCT: [&str; 34] = [
     "@", "~", "|", ",", ":", "::", ".", "..", "..=", "=>", "->", "+", "-", "*", "/", "&", "&&", "||", "!", "?", ";", "#", "$", "=", "==", "<", ">", "<=", ">=", "%", "^", "<<", "+=", "'a",
 ];
